@@ -29,6 +29,10 @@ func checkC07(c *Ctx) {
 	c.Expect("C07-R2", 11)
 	c.Expect("C07-R2b", 5)
 	c.Expect("C07-R3", 4)
+	c.Rule("C07-R8", "%i increments each of the first two parameters on its own (each increment depends only on that parameter being an integer)")
+	c.Rule("C07-R9", "every pop in TParm continues with the popped stack (the stack a Pop returns is never discarded)")
+	c.Expect("C07-R8", 2)
+	c.Expect("C07-R9", 20)
 	c.Rule("C07-R7", "%c writes exactly one byte, the low 8 bits of the popped integer (byte-addressed cursor strings rely on it for values of 128 and above)")
 	c.Expect("C07-R7", 1)
 	c.Expect("C07-R4", 4)
@@ -116,6 +120,8 @@ func checkC07(c *Ctx) {
 	// R3
 	c.Check(skipCmp['?'] && skipCmp[';'] && skipCmp['e'], "C07-R3", "skip-scanner:sees-openers", p.pos(fn.Pos()), fmt.Sprintf("bytes examined while skipping: %v", byteSet(skipCmp)))
 	c07SkipNesting(c, p, fn, dispatch)
+	c07Increment(c, p, fn)
+	c07PopDiscipline(c, p, fn)
 	c07CharOutput(c, p, fn, opCmp)
 	c07BinOps(c, p, fn, dispatch)
 	c07Stack(c, p)
@@ -887,4 +893,106 @@ func charOutputRule(c *Ctx, p *Prog, fn *ssa.Function, bo *ssa.BinOp, rule strin
 		}
 	}
 	c.Check(ok, rule, "op:%c:one-byte", p.pos(bo.Pos()), detail)
+}
+
+// c07Increment: terminfo(5): %i adds 1 to the first two parameters.  A string
+// that is evaluated with one parameter (hpa, vpa) still gets that one
+// incremented, so the two increments must not be conditional on each other.
+func c07Increment(c *Ctx, p *Prog, fn *ssa.Function) {
+	n := 0
+	eachInstr(fn, func(in ssa.Instruction) {
+		st, ok := in.(*ssa.Store)
+		if !ok {
+			return
+		}
+		ia, ok := st.Addr.(*ssa.IndexAddr)
+		if !ok {
+			return
+		}
+		k, ok := constInt(ia.Index)
+		if !ok || k > 1 {
+			return
+		}
+		mi, ok := st.Val.(*ssa.MakeInterface)
+		if !ok {
+			return
+		}
+		add, ok := mi.X.(*ssa.BinOp)
+		if !ok || add.Op != token.ADD {
+			return
+		}
+		if one, ok := constInt(add.Y); !ok || one != 1 {
+			return
+		}
+		ex, ok := add.X.(*ssa.Extract)
+		if !ok {
+			return
+		}
+		ta, ok := ex.Tuple.(*ssa.TypeAssert)
+		if !ok {
+			return
+		}
+		n++
+		key := fmt.Sprintf("op:%%i:param%d", k+1)
+		// the asserted value is the same parameter
+		same := false
+		if ld, ok := ta.X.(*ssa.UnOp); ok {
+			if ia2, ok := ld.X.(*ssa.IndexAddr); ok && ia2.X == ia.X {
+				if k2, ok := constInt(ia2.Index); ok && k2 == k {
+					same = true
+				}
+			}
+		}
+		// guards inside the case: only this assertion's ok
+		foreign := ""
+		for _, g := range rawGuardsAt(st.Block()) {
+			if gx, ok := g.Cond.(*ssa.Extract); ok {
+				if gta, ok := gx.Tuple.(*ssa.TypeAssert); ok && gta != ta {
+					foreign = "also depends on the type of " + valName(gta.X)
+				}
+			}
+		}
+		c.Check(same && foreign == "", "C07-R8", key, p.pos(st.Pos()), fmt.Sprintf("params[%d] = params[%d].(int) + 1 %s", k, k, foreign))
+	})
+	if n < 2 {
+		c.Undecided("C07-R8", "op:%i", p.pos(fn.Pos()), fmt.Sprintf("%d increments of the first two parameters found, expected 2", n))
+	}
+}
+
+// c07PopDiscipline: the stack is a value; Pop returns the shortened stack.
+// Dropping that result leaves the operand on the stack for the next operator.
+func c07PopDiscipline(c *Ctx, p *Prog, fn *ssa.Function) {
+	n := 0
+	var walk func(f *ssa.Function)
+	seen := map[*ssa.Function]bool{}
+	walk = func(f *ssa.Function) {
+		if seen[f] {
+			return
+		}
+		seen[f] = true
+		eachInstr(f, func(in ssa.Instruction) {
+			call, ok := in.(*ssa.Call)
+			if !ok {
+				return
+			}
+			callee := staticCallee(&call.Call)
+			if callee == nil || callee.Pkg != p.Terminfo || recvTypeName(callee) != "terminfo.stack" || !strings.HasPrefix(callee.Name(), "Pop") {
+				return
+			}
+			walk(callee) // helpers built on the primitive pops
+			n++
+			used := false
+			for _, r := range referrers(call) {
+				if ex, ok := r.(*ssa.Extract); ok && ex.Index == 1 {
+					for _, r2 := range referrers(ex) {
+						if _, isDbg := r2.(*ssa.DebugRef); !isDbg {
+							used = true
+						}
+					}
+				}
+			}
+			c.Check(used, "C07-R9", fmt.Sprintf("%s:pop#%d@%s", f.Name(), n, callee.Name()), p.pos(in.Pos()), "the stack returned by the pop is the stack used afterwards")
+		})
+	}
+	walk(fn)
 }
